@@ -152,6 +152,20 @@ StepBad == /\ e.ev \in {"Race", "Panic", "Timeout", "DoubleClose", "NeverClosed"
            /\ IF Finished THEN Canon ELSE UNCHANGED <<graphs, content, pend, run, endl>>
            /\ Advance
 
+\* AddTriples(batch) is ONE step of Layer A whatever the size of the batch: a reader that keeps asking for the number
+\* of triples of the batch's subject (op = "Count") or for the existence of one triple of the batch (op = "Exist")
+\* while the batch is added sees the value before the step (b[1]) and then the value after it (b[2]), never anything
+\* in between and never the old value after the new one; its last observation is made after AddTriples returned.
+BatchOK == /\ Len(e.res) >= 1
+           /\ \A i \in DOMAIN e.res : e.res[i] \in {e.b[1], e.b[2]}
+           /\ \A i \in DOMAIN e.res : \A j \in DOMAIN e.res : i < j => e.res[i] <= e.res[j]
+           /\ e.res[Len(e.res)] = e.b[2]
+
+StepBatch == /\ e.ev = "BatchObs"
+             /\ IF BatchOK THEN TRUE ELSE PrintT(<<"REJECT", l, "C07", "batch-partially-visible">>)
+             /\ IF Finished THEN Canon ELSE UNCHANGED <<graphs, content, pend, run, endl>>
+             /\ Advance
+
 \* summary line of a stress run (operation counts): nothing to judge
 StepInfo == /\ e.ev = "Info"
             /\ IF Finished THEN Canon ELSE UNCHANGED <<graphs, content, pend, run, endl>>
@@ -163,7 +177,7 @@ TraceInit == /\ l = 1 /\ run = 0 /\ endl = 0 /\ pend = Idle
              /\ \A i \in RunLines : TLCSet(Reg(Trace[i].run), 0)
 
 TraceNext == /\ l <= Len(Trace)
-             /\ \/ StepReset \/ Skip \/ StepInv \/ StepRet \/ StepBad \/ StepInfo
+             /\ \/ StepReset \/ Skip \/ StepInv \/ StepRet \/ StepBad \/ StepInfo \/ StepBatch
                 \/ \E p \in Pids : Lin(p)
              /\ UNCHANGED last
 
